@@ -184,7 +184,7 @@ Definition cur0 : cursor := {| c_buf := []; c_flag := false; c_ln := 0; c_cl := 
 
 Definition flush (ind : N) (c : cursor) : cursor :=
   if c_flag c then
-    {| c_buf := c_buf c ++ repeat SPACE (N.to_nat ind); c_flag := false; c_ln := c_ln c; c_cl := c_cl c + ind + 1 |}
+    {| c_buf := c_buf c ++ repeat SPACE (N.to_nat ind); c_flag := false; c_ln := c_ln c; c_cl := c_cl c + ind |}
   else c.
 
 Definition newline (c : cursor) : cursor :=
